@@ -140,4 +140,15 @@ theorem C08_session_name_is_the_typed_name :
       [("parse_command_line", "session_name", "args.session")] := by
   decide
 
+/-- **a session resumes on the ruleset it was started on** (regenerated from `pcfg_guesser.py`): the name stored in the save file is the
+rule name the first run was given, as given (`-r group/name` included), `load_save` takes the rule name from that entry and from nowhere
+else, and a ruleset whose uuid differs from the saved one is refused -/
+theorem C08_resumes_on_its_own_ruleset :
+    Generated.Session.saveConfigSets.filter (fun t => t.2.1 == "rule_name" || t.2.1 == "uuid") =
+      [("main", "uuid", "pcfg.ruleset_info['uuid']"), ("create_save_config", "rule_name", "program_info['rule_name']")] ∧
+    Generated.Session.loadSaveAssigns.filter (fun t => t.1 == "rule_name") =
+      [("rule_name", "save_config.get('rule_info','rule_name')")] ∧
+    Generated.Session.uuidMismatchRefuses = true := by
+  decide
+
 end Pcfg.C08
